@@ -670,6 +670,10 @@ func runC01(c *core.Ctx) {
 		}
 	}
 	c01Tier = c.Tier
+	if c.OnlySub == "first-use" {
+		freshReplay(c, "first-use")
+		return
+	}
 	// a recorded point is re-evaluated directly (independent of the lattice that produced it)
 	if c.OnlySub != "" {
 		if d, ok := c.ReplayDetail.(map[string]any); ok {
@@ -923,6 +927,11 @@ func runC01(c *core.Ctx) {
 	// ---------------- parsers
 	c01Parsers(c, specs)
 	lap("parse")
+	// ---------------- first use of the conversions in a new process by several goroutines at once
+	if c.OnlySub == "" {
+		c01FirstUse(c)
+		lap("first-use")
+	}
 }
 
 func c01ModelToken(s string) (uint64, bool, bool) {
